@@ -951,11 +951,17 @@ def iter_insert(collection, position, value):
         yaql> [0, 1, 3].insert(2, 2)
         [0, 1, 2, 3]
     """
-    i = -1
-    for i, t in enumerate(collection):
+    i = 0
+    collection = iter(collection)
+    while True:
         if i == position:
             yield value
+        try:
+            t = next(collection)
+        except StopIteration:
+            break
         yield t
+        i += 1
 
     if position > i:
         yield value
